@@ -87,6 +87,163 @@ def inline_registry_aliases(tree):
         ast.fix_missing_locations(fn)
 
 
+def _ifexp_path(node, path=()):
+    """path (field, index) to the first conditional expression of a statement that is evaluated in the statement's own
+    scope (not inside a comprehension / lambda, not in a short-circuited operand)"""
+    if isinstance(node, ast.IfExp):
+        return path
+    if isinstance(node, (ast.ListComp, ast.SetComp, ast.DictComp, ast.GeneratorExp, ast.Lambda)):
+        return None
+    for fld, val in ast.iter_fields(node):
+        if isinstance(val, ast.AST):
+            if isinstance(node, ast.BoolOp):
+                continue
+            r = _ifexp_path(val, path + ((fld, None),))
+            if r is not None:
+                return r
+        elif isinstance(val, list):
+            for i, x in enumerate(val):
+                if isinstance(x, ast.AST):
+                    if isinstance(node, ast.BoolOp) and i > 0:
+                        continue
+                    r = _ifexp_path(x, path + ((fld, i),))
+                    if r is not None:
+                        return r
+    return None
+
+
+def desugar_ifexp(stmt):
+    """-> synthetic `if` statement with the two specialised copies of stmt, or None"""
+    import copy
+    path = _ifexp_path(stmt)
+    if not path:
+        return None
+
+    def build(pick):
+        c = copy.deepcopy(stmt)
+        cur = c
+        for fld, i in path[:-1]:
+            cur = getattr(cur, fld) if i is None else getattr(cur, fld)[i]
+        fld, i = path[-1]
+        ife = getattr(cur, fld) if i is None else getattr(cur, fld)[i]
+        repl = ife.body if pick else ife.orelse
+        if i is None:
+            setattr(cur, fld, repl)
+        else:
+            getattr(cur, fld)[i] = repl
+        return c, ife.test
+    a, test = build(True)
+    b, _ = build(False)
+    syn = ast.If(test=test, body=[a], orelse=[b])
+    ast.copy_location(syn, stmt)
+    ast.fix_missing_locations(syn)
+    return syn
+
+
+def desugar_tree(tree):
+    """canonical forms on the parsed tree, each behaviour-preserving for an analysis that does not execute anything:
+    (1) a simple statement holding a conditional expression becomes an if / else of the two specialised statements;
+    (2) an f-string without conversions / format specs becomes the equivalent "..{}..".format(..) call."""
+    class F(ast.NodeTransformer):
+        def visit_JoinedStr(self, n):
+            self.generic_visit(n)
+            tmpl, args = "", []
+            for v in n.values:
+                if isinstance(v, ast.Constant) and isinstance(v.value, str):
+                    tmpl += v.value.replace("{", "{{").replace("}", "}}")
+                elif isinstance(v, ast.FormattedValue) and v.conversion == -1 and v.format_spec is None:
+                    tmpl += "{}"
+                    args.append(v.value)
+                else:
+                    return n
+            call = ast.Call(func=ast.Attribute(value=ast.Constant(value=tmpl), attr="format", ctx=ast.Load()), args=args, keywords=[])
+            return ast.copy_location(call, n)
+    F().visit(tree)
+
+    def fix(stmts):
+        out = []
+        for s in stmts:
+            while isinstance(s, (ast.Assign, ast.AugAssign, ast.AnnAssign, ast.Return, ast.Expr)):
+                syn = desugar_ifexp(s)
+                if syn is None:
+                    break
+                s = syn
+            for fld in ("body", "orelse", "finalbody"):
+                blk = getattr(s, fld, None)
+                if isinstance(blk, list) and blk and isinstance(blk[0], ast.stmt):
+                    setattr(s, fld, fix(blk))
+            if isinstance(s, ast.Try):
+                for h in s.handlers:
+                    h.body = fix(h.body)
+            out.append(s)
+        return out
+    for node in ast.walk(tree):
+        if isinstance(node, (ast.FunctionDef, ast.AsyncFunctionDef)):
+            node.body = fix(node.body)
+    ast.fix_missing_locations(tree)
+
+
+def inline_pure_aliases(fn, keep=()):
+    """copy of a function in which every local that is bound exactly once, at the top level of the body, to a pure path
+    expression (names, attributes, constant / name subscripts - no calls, no arithmetic) is replaced by that expression,
+    provided nothing the expression mentions is re-bound or stored into anywhere in the function.  `off = pstate["off"]`
+    followed by `off[i]` reads like `pstate["off"][i]`.  Behaviour-preserving by construction; used by shape-matching
+    rules so that an alias does not change what they see."""
+    import copy
+    fn = copy.deepcopy(fn)
+    binds = {}
+    for x in ast.walk(fn):
+        if isinstance(x, ast.Name) and isinstance(x.ctx, (ast.Store, ast.Del)):
+            binds[x.id] = binds.get(x.id, 0) + 1
+    stored_roots = set()
+    for x in ast.walk(fn):
+        if isinstance(x, (ast.Subscript, ast.Attribute)) and isinstance(x.ctx, (ast.Store, ast.Del)):
+            b = x
+            while isinstance(b, (ast.Subscript, ast.Attribute)):
+                b = b.value
+            if isinstance(b, ast.Name):
+                stored_roots.add(b.id)
+        if isinstance(x, ast.Call) and isinstance(x.func, ast.Attribute) and x.func.attr in ("append", "extend", "pop", "update", "clear", "remove", "insert", "setdefault", "sort", "reverse"):
+            b = x.func.value
+            while isinstance(b, (ast.Subscript, ast.Attribute)):
+                b = b.value
+            if isinstance(b, ast.Name):
+                stored_roots.add(b.id)
+
+    def pure(e):
+        if isinstance(e, ast.Name):
+            return True
+        if isinstance(e, ast.Attribute):
+            return pure(e.value)
+        if isinstance(e, ast.Subscript):
+            return pure(e.value) and (isinstance(e.slice, ast.Constant) or isinstance(e.slice, ast.Name))
+        return False
+    params = {a.arg for a in fn.args.posonlyargs + fn.args.args + fn.args.kwonlyargs}
+    alias = {}
+    for s in fn.body:
+        if isinstance(s, ast.Assign) and len(s.targets) == 1 and isinstance(s.targets[0], ast.Name) and pure(s.value) and not isinstance(s.value, ast.Name):
+            nm = s.targets[0].id
+            free = {y.id for y in ast.walk(s.value) if isinstance(y, ast.Name)}
+            if binds.get(nm) == 1 and nm not in params and nm not in keep and nm not in stored_roots \
+                    and all((binds.get(f, 0) == 0 or (f in alias)) and f not in stored_roots for f in free):
+                alias[nm] = s
+    if not alias:
+        return fn
+
+    class Sub(ast.NodeTransformer):
+        def visit_Name(self, n):
+            if isinstance(n.ctx, ast.Load) and n.id in alias:
+                return ast.copy_location(copy.deepcopy(Sub().visit(copy.deepcopy(alias[n.id].value))), n)
+            return n
+    for s in list(fn.body):
+        if any(s is a for a in alias.values()):
+            continue
+        Sub().visit(s)
+    fn.body = [s for s in fn.body if not any(s is a for a in alias.values())]
+    ast.fix_missing_locations(fn)
+    return fn
+
+
 class Model:
     def __init__(self, provider=None):
         self.provider = provider or disk_provider()
@@ -105,6 +262,7 @@ class Model:
             except SyntaxError as e:
                 raise AnalysisError("%s does not parse: %s" % (rel, e))
             inline_registry_aliases(self.tree[mod])
+            desugar_tree(self.tree[mod])
             for node in ast.walk(self.tree[mod]):
                 for ch in ast.iter_child_nodes(node):
                     ch._parent = node
